@@ -223,4 +223,21 @@ TEXTS['C13'] = {
     'technique': "Lean 4 proof over exact rationals (Mathlib tactics) + differential correspondence + virtual-time simulation oracle",
 }
 
+TEXTS['C20'] = {
+    'text': "Lean theorems over every permit count and every history of submissions (upload, path download, stream download, "
+            "delete; request created or construction failed) and completions (success, error/cancel, failing rename) in any "
+            "order: free permits + outstanding requests = the semaphore's size (128, read from the source), so a submitter "
+            "blocks at zero and never more than 128 requests exist; every finished transfer gave its permit back exactly once "
+            "and an outstanding one not yet, on every path; the done callback is [rename/remove], subscribers' on_done, release, "
+            "callbacks-complete event, in this order, the event last; a path download ends renamed (success) or with its "
+            "temporary file removed (error, cancel, failing rename); shutdown returns only when every transfer's event is set. "
+            "Correspondence: the real CRTTransferManager against a stub awscrt, sequentially line by line and under the "
+            "deterministic scheduler (blocking submitter, 1-2 completing threads, exit / shutdown(cancel) / exception in the "
+            "with-block / Ctrl-C) with more transfers than permits, including the real 128.",
+    'note': COMMON_NOTE + "The native CRT client is outside the repository and is replaced by a stub whose contract (on_done exactly "
+            "once per created request; finished_future completed before or after it) is an assumption; a subscriber that "
+            "raises inside on_done is not one of the property's paths and is not generated.",
+    'technique': "Lean 4 proof (invariant over all submit/complete histories) + differential correspondence against a stub awscrt + scheduler runs",
+}
+
 NOT_APPLICABLE = []
